@@ -264,6 +264,20 @@ def check_case(case):
         require(sorted(int(k) for k in got) == sorted(plates), "scorer.keys", lambda: "scored plate ids %r, candidates %r" % (sorted(int(k) for k in got), sorted(plates)))
         for k, v in got.items():
             require(_close(float(v), ref[int(k)]), "scorer.equals_direct", lambda: "plate %d: scorer(max_chunk=%d) %r, direct estimator %r" % (int(k), mc, float(v), ref[int(k)]))
+    # the same scorer objects, another distance matrix (the next round of a simulation): scores follow the new matrix
+    d2 = d[::-1, ::-1].copy() * 1.5 + (1.0 - np.eye(n)) * 0.25
+    cdm2 = ChunkedDistanceMatrix(size=n)
+    for i in range(n):
+        for j in range(i):
+            cdm2.add_value(i, j, d2[i, j])
+    for mc, scorer in sorted(_scorers.items()):
+        got = scorer.score(plates=dict(plates), distance_matrix=cdm2, samples=holder, rng=np.random.default_rng(8), progress_bar=False)
+        for k, v in got.items():
+            pl = plates[int(k)]
+            m_ = np.stack([np.asarray(t.predict_conditional_mean(pl), dtype=float) for t in thetas])
+            v_ = np.stack([np.asarray(t.predict_conditional_variance(pl), dtype=float) for t in thetas])
+            r2 = reference_score(m_, v_, d2, 1.0)
+            require(_close(float(v), r2), "scorer.second_distance_matrix", lambda: "plate %d: the scorer object (max_chunk=%d), used again with another distance matrix, gives %r; direct estimator with that matrix %r" % (int(k), mc, float(v), r2))
     sizes = [int(p.size) for p in plates.values()]
     labels = ["scorer", "het" if case["het"] else "homo", "chunked" if case["max_chunk"] < len(plates) else "one-chunk"]
     return {"nontrivial": len(set(sizes)) > 1 or 1 in sizes, "labels": labels}
